@@ -358,6 +358,10 @@ func main() {
 	// worker count is a process-wide goroutine census)
 	r.Parallel("client", 1, 1, func(i int, cs int64) { clientProbe(r, cs) })
 	r.Require("client-start-sequences", 3)
+	r.Parallel("client-blocks", r.N(2, 20), 1, func(i int, cs int64) { blockProbe(r, cs) })
+	r.Require("client-blocks-delivered", 6)
+	r.Parallel("client-neutrino", 1, 1, func(i int, cs int64) { neutrinoProbe(r, cs) })
+	r.Require("neutrino-blocks-delivered", 300)
 	r.Parallel("queue", n, 1, func(i int, cs int64) {
 		rg := rand.New(rand.NewSource(cs))
 		c := caseCfg{buf: bufs[rg.Intn(len(bufs))], nprod: []int{1, 1, 2, 4}[rg.Intn(4)], mode: rg.Intn(5), procs: procs[rg.Intn(3)], stopAt: -1}
